@@ -224,6 +224,12 @@ def bg_correct(raw, bg, df=None):
     if not (raw.shape == bg.shape == df.shape and list(get_spacing(raw)) == list(get_spacing(bg)) == list(get_spacing(df))):
         raise BadImage("raw and background images must have the same shape and spacing")
 
+    # the images are paired pixel by pixel, also when their coordinates start
+    # at different origins (arithmetic on labelled arrays would keep only the
+    # pixels whose coordinates coincide)
+    grid = {dim: raw[dim] for dim in raw.dims}
+    bg, df = [im.assign_coords(grid) for im in (bg, df)]
+
     # unsigned camera counts wrap around when a dark count exceeds the signal
     if raw.dtype.kind in 'ub':
         raw, bg, df = [im.astype(float) for im in (raw, bg, df)]
